@@ -132,8 +132,12 @@ def runCase : CaseFn := fun c => Id.run do
             if lastRes == "ok" || post != p then
               out := out.push s!"ORACLE-FAIL C14 case {c.num} line {ln}: shape={if shape == "" then "unusable-pre" else shape} stores were not usable before the import, yet it reported {lastRes} / changed them: {showObs post}"
           else if lastRes == "ok" then
-            if !successOk p F post then
+            if !contentOk p F post then
               out := out.push s!"ORACLE-FAIL C14 case {c.num} line {ln}: shape={if shape == "" then "success-clause" else shape} import reported success but the stores are not their earlier contents extended by the file (start {F.bstart}, {F.blocks.length} headers): {showObs post}"
+            else if !chainOk p post then
+              out := out.push s!"ORACLE-FAIL C14 case {c.num} line {ln}: shape={if shape == "" then "success-unvalidated-header" else shape} import reported success but stored a block header that fails validation (link / proof of work / difficulty / timestamp; flag 0 in id:prev:valid) or does not connect to its predecessor: {showObs post}"
+            else if !sampleOk p F then
+              out := out.push s!"ORACLE-FAIL C14 case {c.num} line {ln}: shape={if shape == "" then "success-contradicts-existing" else shape} import reported success although the file contradicts the stores at the first or last overlapping height: {showObs post}"
           else if !failureOk p F post then
             out := out.push s!"ORACLE-FAIL C14 case {c.num} line {ln}: shape={if shape == "" then "failure-clause" else shape} import reported {lastRes} and left the stores unusable/inconsistent/with unvalidated contents: {showObs post}"
         else if firstOk then
